@@ -400,20 +400,16 @@ func judge(r *vh.Run, res *result) {
 			// ---- clause 3a: left unacknowledged => accepted at the next poll
 			if f.Auto {
 				nAutoJudged++
+				// the first request after the poll call that names the offset carries this delivery's
+				// outcome (later ones belong to later deliveries of the same offset to this member)
+				// (a renew built before the poll call may still arrive after it: skipped)
 				types, reqs := sentBy(m.Name, d.P, d.Offset, f.At, fl.Ret)
-				ok := len(types) > 0
-				for _, t := range types {
-					if t != 1 && t != 4 {
-						ok = false
-					}
+				for len(types) > 0 && types[0] == 4 {
+					types = types[1:]
 				}
-				has1 := false
-				for _, t := range types {
-					has1 = has1 || t == 1
-				}
-				if !ok || !has1 {
+				if len(types) == 0 || types[0] != 1 {
 					r.Violation("record left unacknowledged was not accepted at the next poll",
-						wit(fmt.Sprintf("member %s partition %d offset %d (delivery count %d): next poll called at clock %d, FlushAcks returned nil at %d with only error-free callbacks, but the acknowledgement types the broker saw for the offset in that window were %v (want accept)", m.Name, d.P, d.Offset, d.DC, f.At, fl.Ret, types),
+						wit(fmt.Sprintf("member %s partition %d offset %d (delivery count %d): next poll called at clock %d, FlushAcks returned nil at %d with only error-free callbacks, but the acknowledgement types the broker saw for the offset in that window were %v (want accept first)", m.Name, d.P, d.Offset, d.DC, f.At, fl.Ret, types),
 							map[string]any{"delivery": d, "requests_covering": reqs, "requests": tail(m.Name, d.P, fl.Ret)}))
 				}
 			}
@@ -466,9 +462,27 @@ func judge(r *vh.Run, res *result) {
 						if s.finals == 1 {
 							s.first = b.String()
 						} else {
-							r.Violation("final acknowledgement sent twice for one delivery",
+							// the application's calls on this offset: renew followed by a terminal status is the
+							// window documented at shareAckState (drain snapshots the renew entry, the terminal
+							// ack re-appends the state, both requests read the terminal status)
+							sig := "final acknowledgement sent twice for one delivery"
+							var ds []*delivery
+							if m := members[b.Member]; m != nil {
+								for _, d := range m.Deliveries {
+									if d.P != p || d.Offset != o {
+										continue
+									}
+									ds = append(ds, d)
+									for i, a := range d.Acks {
+										if a.Status == 4 && i+1 < len(d.Acks) && d.Acks[i+1].Status != 4 {
+											sig = "final acknowledgement sent twice for one delivery (Ack(renew) then terminal Ack racing the request build)"
+										}
+									}
+								}
+							}
+							r.Violation(sig,
 								wit(fmt.Sprintf("member %s partition %d offset %d: final acknowledgement number %d since the broker last acquired the offset for this member", b.Member, p, o, s.finals),
-									map[string]any{"first": s.first, "again": b.String(), "requests": tail(b.Member, p, b.Clock)}))
+									map[string]any{"first": s.first, "again": b.String(), "application_calls": ds, "requests": tail(b.Member, p, b.Clock)}))
 						}
 					}
 				}
